@@ -16,6 +16,7 @@ package kvql
 //@   assigns ctx.Hit, mapof(ctx.FieldCaches), mapof(ctx.FieldChunkKeyCaches), mapof(ctx.FieldChunkCaches)
 //@   ensures[C03, C10] same: err == nil ==> rowsOf(e, chunk, ret)
 //@   ensures own: err == nil ==> isnil(ret) || fresh(ret)
+//@   ensures[C05] colsok: ctx != nil && old(forall q B :: has(ctx.FieldChunkCaches, q) ==> len(ctx.FieldChunkCaches[q]) >= len(chunk)) ==> (forall q B :: has(ctx.FieldChunkCaches, q) ==> len(ctx.FieldChunkCaches[q]) >= len(chunk))
 //
 // Literals, key and value.
 //@ func (e *NumberExpr) ExecuteBatch(chunk []KVPair, ctx *ExecuteCtx) (ret []any, err error) implements Expression.ExecuteBatch
